@@ -247,6 +247,16 @@ fn main() {
                         }
                     };
                     qs.push(format!("QResChange {} {}", dg(p), s));
+                    let r2 = pindex.resolve_change_prefix(repo.as_ref(), &hp).block_on().unwrap();
+                    let s2 = match r2 {
+                        PrefixResolution::NoMatch => "RNo".to_string(),
+                        PrefixResolution::AmbiguousMatch => "RAmb".to_string(),
+                        PrefixResolution::SingleMatch(t) => {
+                            let ps: Vec<usize> = t.targets.iter().map(|(id, _)| pos[id]).collect();
+                            format!("(ROne {} {})", dg(&change_hex[ps[0]]), dagrepo::coq_nats(&ps))
+                        }
+                    };
+                    qs.push(format!("QResChange2 {} {}", dg(p), s2));
                 };
                 let nq = if total <= 3 { total } else { 10 };
                 for _ in 0..nq {
@@ -276,6 +286,15 @@ fn main() {
                     let c = commit_at(p);
                     let lc = repo.shortest_unique_change_id_prefix_len(c.change_id()).block_on().unwrap();
                     qs.push(format!("QShortChange {} {lc}", dg(&change_hex[p])));
+                    let lc2 = pindex
+                        .shortest_change_prefix_len(repo.as_ref(), c.change_id())
+                        .block_on()
+                        .unwrap();
+                    qs.push(format!("QShortChange2 {} {lc2}", dg(&change_hex[p])));
+                    q_res_change(&mut qs, &change_hex[p][..lc2.min(change_hex[p].len())]);
+                    if lc2 >= 1 {
+                        q_res_change(&mut qs, &change_hex[p][..lc2 - 1]);
+                    }
                     q_res_change(&mut qs, &change_hex[p][..lc.min(change_hex[p].len())]);
                     if lc >= 1 {
                         q_res_change(&mut qs, &change_hex[p][..lc - 1]);
@@ -295,13 +314,20 @@ fn main() {
                     }
                 }
                 let term = format!(
-                    "(mk_case [{}] {} {} [{}] false)%nat",
+                    "(mk_case [{}] {} {} {} [{}] false)%nat",
                     segs.join("; "),
                     dagrepo::coq_nats(&vis),
                     match &dis {
                         Some(d) => format!(
                             "(Some [{}])",
                             d.iter().map(|&p| dg(&commit_hex[p])).collect::<Vec<_>>().join("; ")
+                        ),
+                        None => "None".to_string(),
+                    },
+                    match &dis {
+                        Some(d) => format!(
+                            "(Some [{}])",
+                            d.iter().map(|&p| dg(&change_hex[p])).collect::<Vec<_>>().join("; ")
                         ),
                         None => "None".to_string(),
                     },
@@ -324,7 +350,7 @@ fn main() {
                 }
                 None => {
                     ctx.panicked();
-                    ctx.emit(i, "(mk_case [] [] None [] true)".to_string(), false, "panic");
+                    ctx.emit(i, "(mk_case [] [] None None [] true)".to_string(), false, "panic");
                 }
             }
         }
